@@ -376,3 +376,4 @@ end Restful
 -- also: Restful.TieImp.remove_route
 -- also: Restful.TieImp.build_route
 -- also: Restful.TieImp.copy_defaults
+-- also: Restful.TieImp.build_route_no_function
